@@ -49,6 +49,8 @@ func runC16(w *World, r *Report) {
 	noSentinelRule(w, r)
 	r.Rule("immutable", "a range object is written only by the function that allocates it", 2)
 	immutableRangeRule(w, r)
+	r.Rule("payload-immutable", "value and mask objects of match fields (what a register match got from its range) are never written after they were built", 1)
+	payloadImmutableRule(w, r)
 
 	get := func(key string, rule string) *FuncInfo {
 		fi := w.Funcs[key]
@@ -459,4 +461,83 @@ func immutableRangeRule(w *World, r *Report) {
 		}
 	}
 	r.Stats["range_field_stores"] = nStores
+}
+
+// payloadImmutableRule: a match field is copied by value all over the API (Match.AddField(*f), struct
+// assignment); the copy shares the Value and Mask objects of the original. The mask bytes a register match
+// got from its range stay what the range said only while those payload objects are never written after
+// they were built: every store into a field of a match-field payload type (the types DecodeMatchField
+// allocates) happens in a method of that type (its decoder fills the receiver) or hits an object allocated
+// in the storing function.
+func payloadImmutableRule(w *World, r *Report) {
+	df := w.Funcs["openflow13.DecodeMatchField"]
+	if df == nil {
+		r.Fail(VViolation, "payload-immutable", "openflow13.DecodeMatchField", "", "-", "the match-field dispatcher no longer exists (anchor cannot be resolved)")
+		return
+	}
+	payload := map[*types.Named]bool{}
+	ast.Inspect(df.Decl.Body, func(n ast.Node) bool {
+		c, ok := n.(*ast.CallExpr)
+		if !ok || len(c.Args) != 1 {
+			return true
+		}
+		if id, ok := unparen(c.Fun).(*ast.Ident); ok && id.Name == "new" {
+			if nt, ok := df.Pkg.TypesInfo.TypeOf(c.Args[0]).(*types.Named); ok {
+				payload[nt] = true
+			}
+		}
+		return true
+	})
+	if len(payload) < 10 {
+		r.Fail(VUndecided, "payload-immutable", "openflow13.DecodeMatchField", "", w.Pos(df.Decl.Pos()), fmt.Sprintf("only %d payload types found in the dispatcher", len(payload)))
+		return
+	}
+	sw := w.SSA()
+	var fns []*ssa.Function
+	for fn := range sw.All {
+		if w.inModule(fn) && len(fn.Blocks) > 0 && !isTestFunc(w, fn) {
+			fns = append(fns, fn)
+		}
+	}
+	sort.Slice(fns, func(i, j int) bool { return fns[i].String() < fns[j].String() })
+	nStores := 0
+	for _, fn := range fns {
+		// methods of the payload type itself build or decode their receiver
+		var own *types.Named
+		if fn.Signature.Recv() != nil {
+			t := fn.Signature.Recv().Type()
+			if p, ok := t.Underlying().(*types.Pointer); ok {
+				t = p.Elem()
+			}
+			own, _ = t.(*types.Named)
+		}
+		per := 0
+		for _, b := range fn.Blocks {
+			for _, ins := range b.Instrs {
+				st, ok := ins.(*ssa.Store)
+				if !ok {
+					continue
+				}
+				fa, ok := st.Addr.(*ssa.FieldAddr)
+				if !ok {
+					continue
+				}
+				pt, ok := fa.X.Type().Underlying().(*types.Pointer)
+				if !ok {
+					continue
+				}
+				nt, _ := pt.Elem().(*types.Named)
+				if nt == nil || !payload[nt] || nt == own {
+					continue
+				}
+				nStores++
+				per++
+				if _, fresh := fa.X.(*ssa.Alloc); fresh {
+					continue
+				}
+				r.Fail(VViolation, "payload-immutable", ssaFuncKey(w, fn), fmt.Sprintf("%s#%d", nt.Obj().Name(), per), w.Pos(st.Pos()), "a field of an existing "+nt.Obj().Name()+" (a match-field value or mask object) is overwritten in place: every copy of the match field made by value shares that object, so masks and values already handed out change under their holders")
+			}
+		}
+	}
+	r.OK("payload-immutable", "inventory", "", "-", fmt.Sprintf("%d payload types; %d stores into their fields outside their own methods, all into objects allocated in the storing function", len(payload), nStores), true)
 }
